@@ -32,24 +32,27 @@ BOUNDS = {"quick": "8 base arrays (empty row first/middle/last/none/all, one row
 
 Q_BASES = [[2, 0, 3], [0, 2, 1], [1, 3, 0], [2, 1, 3], [0, 0], [3], [], [1, 0, 0, 2]]
 T_BASES = Q_BASES + [[1, 1, 1], [0], [2, 2], [3, 0, 1]]
-PARTS_Q = 6
+PPARTS_Q = 4
 FOPS = [["add1"], ["neg"], ["mulcol"], ["cat"], ["sort"], ["cumsum"], ["diff"], ["where", 3], ["float"], ["mat"]]
 ALIAS_SELS = ("E", "T0", ["t", "E"])
 
 
 def shards(tier):
+    """one shard = (base array, slice of the probe alphabet): every shard of a base runs the same exact
+    BFS (deduplicated by state hash); derivation transitions and the state invariant are checked and
+    counted in probe-part 0 only, the probes of every distinct state are split over the parts"""
     out = []
     if tier == "quick":
         for b in Q_BASES:
-            for p in range(PARTS_Q):
-                out.append({"base": b, "depth": 2, "part": p, "of": PARTS_Q})
+            for p in range(PPARTS_Q):
+                out.append({"base": b, "depth": 2, "ppart": p, "pof": PPARTS_Q})
     else:
         for b in T_BASES:
-            for p in range(48):
-                out.append({"base": b, "depth": 3, "part": p, "of": 48})
+            for p in range(8):
+                out.append({"base": b, "depth": 3, "ppart": p, "pof": 8})
         for b in dsl.lens_vectors(3, 3):
             if b not in T_BASES:
-                out.append({"base": b, "depth": 2, "part": 0, "of": 1})
+                out.append({"base": b, "depth": 2, "ppart": 0, "pof": 1})
     return out
 
 
@@ -167,21 +170,40 @@ def is_alias_op(op):
     return op[0] == "mat" or (op[0] == "idx" and op[1] in ALIAS_SELS)
 
 
+_TEMPLATES = {}
+
+
 def fresh(rows, dtype):
-    from npstructures import RaggedArray
+    """a fresh real RaggedArray with fresh geometry.  RaggedShape(lengths) costs ~85us (np.pad); replicas are
+    built thousands of times, so the geometry is rebuilt from a copy of a template's stored form through the
+    public RaggedShape.to_dict / from_dict pair (C01 checks that pair); nothing is shared between replicas."""
+    from npstructures import RaggedArray, RaggedShape
+    lens = tuple(len(r) for r in rows)
     flat = np.array([v for r in rows for v in r], dtype=dtype)
-    return RaggedArray(flat, [len(r) for r in rows])
+    try:
+        t = _TEMPLATES.get(lens)
+        if t is None:
+            t = _TEMPLATES[lens] = {k: np.array(v) for k, v in RaggedShape(list(lens)).to_dict().items()}
+        shape = RaggedShape.from_dict({k: v.copy() for k, v in t.items()})
+        return RaggedArray(flat, shape)
+    except Exception:  # noqa: BLE001  (refactored tree: use the plain constructor)
+        return RaggedArray(flat, list(lens))
+
+
+def build_impl(base, chain):
+    """replay a chain on fresh real objects (implementation side only) -> [a, x1..xk]"""
+    objs = [fresh(dsl.distinct_rows(base), np.int64)]
+    for op in chain:
+        objs.append(impl_step(objs[-1], op))
+    return objs
 
 
 def build(base, chain):
     """replay a chain on fresh real objects -> (objects [a, x1..xk], models [rows0..rowsk])"""
-    rows = dsl.distinct_rows(base)
-    objs = [fresh(rows, np.int64)]
-    models = [rows]
+    models = [dsl.distinct_rows(base)]
     for op in chain:
         models.append(model_step(models[-1], op))
-        objs.append(impl_step(objs[-1], op))
-    return objs, models
+    return build_impl(base, chain), models
 
 
 # ---------------------------------------------------------------- probes
@@ -193,28 +215,28 @@ READ_PROBES = [
     ("len", lambda x: len(x)), ("size", lambda x: x.size), ("lengths", lambda x: np.asarray(x.lengths)),
     ("shape0", lambda x: x.shape[0]), ("tolist", lambda x: x), ("ravel", lambda x: x.ravel()), ("iter", lambda x: [np.asarray(r) for r in x]),
     ("dtype", lambda x: str(x.dtype)), ("repr", lambda x: (repr(x), str(x))[0][:0]),
-    ("x[0]", lambda x: x[0]), ("x[-1]", lambda x: x[-1]), ("x[1]", lambda x: x[1]), ("x[-2]", lambda x: x[-2]), ("x[2]", lambda x: x[2]),
+    ("x[0]", lambda x: x[0]), ("x[-1]", lambda x: x[-1]), ("x[1]", lambda x: x[1]),
     ("x[np.int64(0)]", lambda x: x[np.int64(0)]),
-    ("x[0:1]", lambda x: x[0:1]), ("x[::-1]", lambda x: x[::-1]), ("x[1:]", lambda x: x[1:]), ("x[[0]]", lambda x: x[[0]]),
+    ("x[0:1]", lambda x: x[0:1]), ("x[::-1]", lambda x: x[::-1]), ("x[[0]]", lambda x: x[[0]]),
     ("x[mask]", lambda x: x[np.arange(len(x)) % 2 == 0]),
     ("x[:, 0:1]", lambda x: x[:, 0:1]), ("x[:, ::-1]", lambda x: x[:, ::-1]), ("x[:, -1:]", lambda x: x[:, -1:]), ("x[:, 1::2]", lambda x: x[:, 1::2]),
     ("x[1:, :-1]", lambda x: x[1:, :-1]), ("x[::-1, ::-2]", lambda x: x[::-1, ::-2]),
     ("x[0, 0]", lambda x: x[0, 0]), ("x[-1, -1]", lambda x: x[-1, -1]), ("x[0, 1:]", lambda x: x[0, 1:]), ("x[:, 0]", lambda x: x[:, 0]),
     ("x[...]", lambda x: x[...]), ("x[()]", lambda x: x[()]), ("x[...][::-1]", lambda x: x[...][::-1]),
-    ("-x", lambda x: -x), ("x+1", lambda x: x + 1), ("x*col", lambda x: x * _col(x)), ("col-x", lambda x: _col(x) - x),
-    ("x+x", lambda x: x + x), ("x==x", lambda x: x == x), ("abs", lambda x: np.abs(x)), ("x>2", lambda x: x > 2),
-    ("sum-1", lambda x: x.sum(axis=-1)), ("np.sum-1", lambda x: np.sum(x, axis=-1)), ("sum0", lambda x: x.sum(axis=0)),
+    ("x+1", lambda x: x + 1), ("x*col", lambda x: x * _col(x)), ("col-x", lambda x: _col(x) - x),
+    ("x+x", lambda x: x + x), ("x>2", lambda x: x > 2),
+    ("sum-1", lambda x: x.sum(axis=-1)), ("sum0", lambda x: x.sum(axis=0)),
     ("np.sum0", lambda x: np.sum(x, axis=0)), ("sumNone", lambda x: x.sum()), ("max-1", lambda x: x.max(axis=-1)),
-    ("min-1", lambda x: x.min(axis=-1)), ("mean-1", lambda x: x.mean(axis=-1)), ("mean0", lambda x: x.mean(axis=0)),
-    ("any", lambda x: x.any(axis=-1)), ("all", lambda x: x.all(axis=-1)), ("prod", lambda x: x.prod(axis=-1)),
+    ("mean-1", lambda x: x.mean(axis=-1)), ("mean0", lambda x: x.mean(axis=0)),
+    ("any", lambda x: x.any(axis=-1)), 
     ("argmax", lambda x: x.argmax(axis=-1)), ("keepdims", lambda x: x.sum(axis=-1, keepdims=True)),
     ("add.reduce", lambda x: np.add.reduce(x, axis=-1)),
-    ("cumsum", lambda x: np.cumsum(x, axis=-1)), ("add.accumulate", lambda x: np.add.accumulate(x, axis=-1)),
+    ("cumsum", lambda x: np.cumsum(x, axis=-1)), 
     ("sort", lambda x: x.sort(axis=-1)), ("unique", lambda x: np.unique(x, axis=-1)),
-    ("unique_counts", lambda x: np.unique(x, axis=-1, return_counts=True)), ("diff", lambda x: np.diff(x, axis=-1)),
-    ("nonzero", lambda x: np.nonzero(x > 2)), ("nonzero_m", lambda x: (x > 2).nonzero()),
+    ("unique_counts", lambda x: np.unique(x, axis=-1, return_counts=True)), 
+    ("nonzero_m", lambda x: (x > 2).nonzero()),
     ("concat0", lambda x: np.concatenate([x, x])), ("concat1", lambda x: np.concatenate([x, x], axis=-1)),
-    ("zeros_like", lambda x: np.zeros_like(x)), ("ones_like", lambda x: np.ones_like(x)), ("where", lambda x: np.where(x > 2, x, 0)),
+    ("zeros_like", lambda x: np.zeros_like(x)), ("where", lambda x: np.where(x > 2, x, 0)),
     ("padded", lambda x: x.as_padded_matrix()), ("padded_left", lambda x: x.as_padded_matrix(fill_value=-1, side="left")),
     ("get_column_values", lambda x: x.get_column_values(0)), ("col_counts", lambda x: x.col_counts()),
     ("astype", lambda x: x.astype(np.float32)), ("to_numpy_array", lambda x: x.to_numpy_array()),
@@ -263,40 +285,31 @@ def _key(objs, models):
 
 
 def run_shard(shard, tier, acc):
-    base, depth, part, of = shard["base"], shard["depth"], shard["part"], shard["of"]
+    base, depth, ppart, pof = shard["base"], shard["depth"], shard["ppart"], shard["pof"]
+    first = ppart == 0
+    ctx = {"ppart": ppart, "pof": pof, "fresh_cache": {}}
     seen = set()
     objs, models = build(base, [])
     seen.add(_key(objs, models))
-    if part == 0:
-        acc.begin(["state", base, []])
-        _visit_state(acc, base, [], count=True)
+    acc.begin(["state", base, []])
+    _visit_state(acc, base, [], ctx)
     frontier = [[]]
     for d in range(1, depth + 1):
         nxt = []
-        for ci, chain in enumerate(frontier):
+        for chain in frontier:
             objs, models = build(base, chain)
             n = len(models[-1])
             is_float = str(objs[-1].dtype).startswith("float")
             level = 0 if d <= 2 else 1
             for op in deriv_ops(n, is_float, level):
-                # at depth 1 every part recomputes the frontier; only part 0 counts and checks it
-                mine = (d > 1) or part == 0
                 new_chain = chain + [op]
-                st = _transition(acc, base, new_chain, seen, check=mine)
+                st = _transition(acc, base, new_chain, seen, check=first)
                 if st == "new":
                     nxt.append(new_chain)
-        if d == 1:
-            # this part owns every `of`-th depth-1 state: probes it and expands it further
-            own = [c for i, c in enumerate(nxt) if i % of == part]
-            for c in own:
-                acc.begin(["state", base, c])
-                _visit_state(acc, base, c, count=True)
-            frontier = own
-        else:
-            for c in nxt:
-                acc.begin(["state", base, c])
-                _visit_state(acc, base, c, count=True)
-            frontier = nxt
+                    acc.begin(["state", base, new_chain])
+                    _visit_state(acc, base, new_chain, ctx)
+        frontier = nxt
+    acc.extra[f"frontier_states_at_depth_{depth}"] += len(frontier) if first else 0
 
 
 def _transition(acc, base, chain, seen, check=True):
@@ -327,7 +340,8 @@ def _transition(acc, base, chain, seen, check=True):
     if k in seen:
         return "seen"
     seen.add(k)
-    acc.state(k)
+    if check:
+        acc.state(k)
     return "new"
 
 
@@ -352,42 +366,64 @@ def _features(acc, chain, objs, models):
         acc.nontrivial()
 
 
-def _visit_state(acc, base, chain, count=True):
+def _fresh_obs(ctx, rows, dtype, name, f, assign):
+    """observation of a probe on a freshly built array; depends only on (rows, dtype, probe), so it is
+    computed once per shard and model content"""
+    k = (repr(rows), str(dtype), name)
+    c = ctx["fresh_cache"]
+    if k not in c:
+        if assign:
+            fr = fresh(rows, dtype)
+            r_f = attempt(lambda: f(fr))
+            c[k] = (is_refused(r_f), observe(lambda: fr, dt=True))
+        else:
+            c[k] = observe(lambda: f(fresh(rows, dtype)), dt=True)
+    return c[k]
+
+
+def _visit_state(acc, base, chain, ctx=None):
+    ctx = ctx or {"ppart": 0, "pof": 1, "fresh_cache": {}}
+    ppart, pof = ctx["ppart"], ctx["pof"]
     objs, models = build(base, chain)
-    _features(acc, chain, objs, models)
     rows = models[-1]
-    # (a) state invariant: the derived array has the model's content
     dts = attempt(lambda: str(objs[-1].dtype))
-    exp = ("R", None, tuple(tuple(r) for r in rows))
-    obs = observe(lambda: build(base, chain)[0][-1])
-    acc.trans()
-    acc.outcome(obs)
-    if obs != exp:
-        acc.fail("derived-content-differs-from-model", exp, obs, classifier=_classify(chain, "content"))
+    if ppart == 0:
+        _features(acc, chain, objs, models)
+        # (a) state invariant: the derived array has the model's content
+        exp = ("R", None, tuple(tuple(r) for r in rows))
+        obs = observe(lambda: build_impl(base, chain)[-1])
+        acc.trans()
+        acc.outcome(obs)
+        if obs != exp:
+            acc.fail("derived-content-differs-from-model", exp, obs, classifier=_classify(chain, "content"))
+            return
+    if is_refused(dts):
         return
     dtype = np.dtype(dts)
     # (b) read probes, each on a pristine replica, against the same probe on a fresh array
-    for name, f in READ_PROBES:
-        o_d = observe(lambda: f(build(base, chain)[0][-1]), dt=True)
-        o_f = observe(lambda: f(fresh(rows, dtype)), dt=True)
+    for pi, (name, f) in enumerate(READ_PROBES):
+        if pi % pof != ppart:
+            continue
+        o_d = observe(lambda: f(build_impl(base, chain)[-1]), dt=True)
+        o_f = _fresh_obs(ctx, rows, dtype, name, f, False)
         acc.trans()
         acc.outcome((name, o_d))
         if o_d != o_f:
             acc.fail("probe-differs-from-fresh-array", (name, o_f), (name, o_d), classifier=_classify(chain, name), note=name)
     # (c) assignment probes: the derived array, a fresh one, and every array it was derived from
-    acc.feature("assign_probe")
-    for name, f in ASSIGN_PROBES:
+    for pi, (name, f) in enumerate(ASSIGN_PROBES):
+        if pi % pof != ppart:
+            continue
+        acc.feature("assign_probe")
         objs, models = build(base, chain)
         x = objs[-1]
         r_d = attempt(lambda: f(x))
         o_d = observe(lambda: x, dt=True)
-        fr = fresh(rows, dtype)
-        r_f = attempt(lambda: f(fr))
-        o_f = observe(lambda: fr, dt=True)
+        f_refused, o_f = _fresh_obs(ctx, rows, dtype, name, f, True)
         acc.trans()
         acc.outcome((name, o_d))
-        if is_refused(r_d) != is_refused(r_f) or o_d != o_f:
-            acc.fail("assignment-differs-from-fresh-array", (name, r_f, o_f), (name, r_d, o_d), classifier=_classify(chain, name), note=name)
+        if is_refused(r_d) != f_refused or o_d != o_f:
+            acc.fail("assignment-differs-from-fresh-array", (name, f_refused, o_f), (name, r_d, o_d), classifier=_classify(chain, name), note=name)
             continue
         # parents: aliases change identically, everything else is untouched
         k = len(objs) - 1
